@@ -17,6 +17,7 @@ SymPy-matrix inputs with Taylor expansion, `subspace_indices` vs eigenvector mat
 (13 formats incl. mixed orders, analytic dependence, both symbol orders, interleaved indices) and the presentation variants of `harness/bd_corr.py` (carriers incl.
 legacy sparse matrices and mixtures, integer `H_0`, containers, designations, rotated eigenbasis) against the exact model.  PARTIAL in that sense.
 -/
+import PymaVerif.Proofs.FormatsThm
 import PymaVerif.Props.C15
 import PymaVerif.Proofs.Natural
 import PymaVerif.Proofs.TaylorThm
@@ -50,6 +51,19 @@ theorem C14_taylor_expansion (c : Taylor.Coef) (n : List Nat) : Taylor.term c n 
 
 example : Taylor.term (Taylor.ofMonomials [([1, 1], 5), ([2, 1], 7), ([0, 0], 1)]) [2, 1] = 7 := by
   rw [C14_taylor_expansion]; decide +kernel
+
+/-- **C14** designation by `subspace_indices`: every state belongs to exactly the block its label names, and inside a block the states
+keep their order of appearance (so the blocks are the ones the corresponding eigenvector matrices — columns of the identity — give) -/
+theorem C14_subspace_indices (labels : List Nat) :
+    (∀ a (ha : a < labels.length), ∃ hb : labels[a] < (Formats.subspaces labels).length, a ∈ (Formats.subspaces labels)[labels[a]] ∧
+        ∀ b (hb' : b < (Formats.subspaces labels).length), a ∈ (Formats.subspaces labels)[b] → b = labels[a]) ∧
+    ∀ blk ∈ Formats.subspaces labels, blk.Pairwise (· < ·) := by
+  refine ⟨fun a ha => Formats.subspaces_partition labels a ha, ?_⟩
+  intro blk hblk
+  obtain ⟨b, _, rfl⟩ := List.mem_map.mp hblk
+  exact Formats.blockStates_sorted labels b
+
+example : Formats.subspaces [1, 0, 1, 3, 0] = [[1, 4], [0, 2], [], [3]] := by decide
 
 end Props
 end Pyma
